@@ -115,6 +115,21 @@ Theorem C07_batch_of_sure_losers_partial : forall A S (ZL : zlike A S) cfg, exac
 Proof. exact batch_defeat_sure_losers. Qed.
 Print Assumptions C07_batch_of_sure_losers_partial.
 
+(* ... and the batch of the parametric wigm rule under defeat_batch=zero (the candidates tied at a lowest tally that compares equal
+   to zero, excluded together when no surplus is pending), in every state with distinct candidate ids: when the exclusion step
+   takes the batch branch, nobody is elected by it, the excluded grow by exactly the size of the batch, and the candidates still
+   in the running -- elected plus hopeful, [actn] -- are at least as many as the seats (Proofs/WinnersZero.v; this is the guard
+   repaired by fix F7, and the step seeded changes C01_12, C07_6, C07_12, C09_1 aim at) *)
+From Droop Require Import Proofs.Winners Proofs.TerminateQpq Proofs.WinnersZero.
+Theorem C07_zero_batch_leaves_enough_candidates : forall A cfg, exact A = false -> forall (s : est A) lv lows,
+  NoDup (map (@cid A) (cands s)) -> low_candidates A s = Some (lv, lows) ->
+  eqv A lv (V0 A) && cf_batch_zero cfg && (seats_left A cfg s <=? nlen (hopefuls A s) - nlen lows) = true ->
+  let r := wigm_defeat A cfg s in
+  eln A r = eln A s /\ dfn A r = (dfn A s + List.length lows)%nat /\ cf_nseats cfg <= Z.of_nat (actn A r) /\
+  map (@cid A) (cands r) = map (@cid A) (cands s).
+Proof. exact zero_batch_leaves_enough. Qed.
+Print Assumptions C07_zero_batch_leaves_enough_candidates.
+
 (* ---- Meek family: "within the current total surplus".  The exclusion step of meek, warren and meek-prf, in every state,
    when it does not crash: the excluded candidate is a hopeful whose tally is at most the lowest hopeful tally plus the total
    surplus (plus nothing when rounding has left the surplus negative), and nobody else's status changes.
